@@ -40,6 +40,9 @@ Section M.
 Variable mode : smode.
 Variable clears_old : bool.
 Variable expires_in : Z.          (* 3600 *)
+(* which providers are OAuth 1: their callback clears the state entry (and with it the expired entries of the session) only
+   after the entry was found; the OAuth 2 callback clears before it looks at what it found *)
+Variable oauth1_prov : string -> bool.
 
 Definition same_key (p : string) (st : nat) (e : entry) : bool := String.eqb (e_prov e) p && Nat.eqb (e_state e) st.
 
@@ -54,6 +57,10 @@ Definition remove_key (l : list entry) (p : string) (st : nat) : list entry :=
 
 (* _clear_session_state: entries whose exp has passed are dropped *)
 Definition purge (l : list entry) (now : Z) : list entry := filter (fun e => negb (Z.ltb (e_exp e) now)) l.
+
+(* clear_state_data: the named entry goes, and with it the expired entries of the session; when it is not called nothing changes *)
+Definition after_callback (cleared : bool) (l : list entry) (p : string) (state : option nat) (now : Z) : list entry :=
+  if cleared then purge (match state with Some st => remove_key l p st | None => l end) now else l.
 
 Fixpoint upd_nth {A} (l : list A) (i : nat) (f : A -> A) : list A :=
   match l, i with
@@ -90,7 +97,8 @@ Definition cstep (s : cst) (o : cop) : cst * cout :=
           | None => (s, ONone)
           | Some l =>
               let found := match state with Some st => find_entry l p st | None => None end in
-              let l' := purge (match state with Some st => remove_key l p st | None => l end) (c_now s) in
+              let cleared := negb (oauth1_prov p) || (match found with Some _ => true | None => false end) in
+              let l' := after_callback cleared l p state (c_now s) in
               ({| c_sessions := upd_nth (c_sessions s) sess (fun _ => l'); c_cache := c_cache s; c_now := c_now s;
                   c_next := c_next s; c_log := c_log s |},
                match found with Some e => OExchanged e | None => OMismatch end)
